@@ -73,6 +73,27 @@ CLAIMED = {
         "note": "Trusted: the seam sees every descriptor the library obtains (inotify_init, os.pipe); injected errno values are what the kernel would return. Bounded: trees of 1-4 directories, <=2 closers, preemption bound 2 (quick) / 3 (thorough) at the Inotify level, sampled schedules above it.",
         "technique": "TLA+ model checking (TLC, safety + liveness) + fault enumeration at the OS seam + trace validation of real executions",
     },
+    "C09": {
+        "engine": "function",
+        "design_ref": "DESIGN.md §4.5, §7 C09",
+        "text": 'SnapshotDiff.tla transcribes DirectorySnapshotDiff.__init__ step by step and states the ten laws of C09 (partition/replay of the path set, moved iff same identity elsewhere, created/deleted iff identity absent from the other side, modified iff same identity and mtime/size changed, kind lists, self-diff empty, swap symmetry, ignore_device) as invariants; TLC checks them over every ordered pair of snapshots of bounded universes (quick 50,625 pairs x 2; thorough five universes, 1.9M states). The real DirectorySnapshot/DirectorySnapshotDiff (also via `-` and the ContextManager, recursive and not) are run on the same universes through injectable stat/listdir and every (ref, snap, ignore_device, eight actual lists) line is validated by TLC against SnapshotDiffTrace.tla, whose monitors are the laws themselves; plus random larger trees.',
+        "note": 'Trusted: the laws as read in DESIGN §7 (identity = (ino, dev), or inode number under ignore_device; a moved-and-modified entry may be listed under either path). Exhaustive for the quick universe (names {a,b}, depth 2, 3 inodes, 2 devices / mtimes / sizes split over configs), sampled beyond.',
+        "technique": 'TLA+ model checking (TLC) over all snapshot pairs + law monitors (TLC) over outputs of the real code',
+    },
+    "C10": {
+        "engine": "polling",
+        "design_ref": "DESIGN.md §4.5, §7 C10",
+        "text": "Polling.tla models a virtual file system, the snapshot walk at the granularity of one listdir/stat call with an ENOENT/ENOTDIR/EACCES fault injectable at every call position, and the emitter (timer, take snapshot, emit diff in the code's class order, root gone); TLC checks the six C10 invariants and C10_StoppedIsFinal exhaustively, and four seeded deviations of the model must be rejected. The real PollingEmitter (direct queue_events driving through PollingObserverVFS-style stat/listdir, and the threaded PollingObserverVFS under the deterministic scheduler with a manual poll timer) is run over all histories of <=2 (quick) / <=3 (thorough) tree states x a fault at every call position x recursive/non-recursive; TLC validates per-poll traces (VFS state, fault, queued events) against PollingTrace.tla, which recomputes the expected diff itself.",
+        "note": 'Trusted: the VFS object serves what the model says (stat results, directory entries, faults). Bounded: <=3 entries, <=3 polls, one fault per walk in the exhaustive part; random longer histories beyond.',
+        "technique": 'TLA+ model checking (TLC) + fault enumeration at every stat/listdir position + trace validation of the real emitter',
+    },
+    "C14": {
+        "engine": "function",
+        "design_ref": "DESIGN.md §4.5, §7 C14",
+        "text": "SubEvents.tla defines the synthetic moved / created events over name sequences (prefix rewrite) and, separately, the textual str.replace rewrite the code used (Dev_TextualReplace); TLC checks the C14 laws over all trees of the {r,x,y} universe x all (src, dst) pairs (thorough: 43,785 trees) and proves that the deviation differs exactly when the destination string re-occurs; the negative config (deviation switched on) must be refuted. Every case is materialised on disk (relative/absolute x str/bytes, colliding name universes, the scratch root's own components repeated below the destination, random trees), the real generate_sub_moved_events / generate_sub_created_events are called, results are projected byte-exactly to name sequences and validated by TLC against SubEventsTrace.tla (one per descendant, destination real, source = old prefix + same relative path, flavour, parents first, synthetic).",
+        "note": "Trusted: projection (strip root spelling, split on os.sep, exact byte lookup in the case's name table). Exhaustive over the enumerated universes (state count cross-checked between TLC and the Python enumeration).",
+        "technique": 'TLA+ model checking (TLC) over all trees x pairs + law monitors (TLC) over outputs of the real generators',
+    },
 }
 
 NOT_YET = "check not built yet (in progress, see DESIGN.md §12)"
